@@ -278,7 +278,7 @@ pub fn spec() -> PropSpec {
     PropSpec {
         id: "C12",
         level: "exploration",
-        rule: "encoder direction: library-representable trees (strings/names 1..65535 bytes) checked byte-exactly through RefAmf0's strict ordered decoder and re-encoder; decoder direction: reference trees with arbitrary property order, ECMA arrays with count in {true, 0, 2^32-1, random}, Boolean bytes 0..255; markers: all 256 marker bytes x 4 positions (exhaustive); truncation: every cut point of encodings <= 400 bytes, sampled cuts above. Non-trivial = tree with a container, or a non-canonical legal encoding (ECMA count != size, Boolean byte > 1), or an unsupported marker, or truncation of a tree with a container; distinct = distinct tree / marker case",
+        rule: "(trees as in C04: chains of up to 200 nested containers - beyond the library's documented limit of 128 a refusal is accepted -, wide containers, numeric and sibling names; sub-checks '...-after-a-refused-call' make a half-way refused call on the same thread first) encoder direction: library-representable trees (strings/names 1..65535 bytes) checked byte-exactly through RefAmf0's strict ordered decoder and re-encoder; decoder direction: reference trees with arbitrary property order, ECMA arrays with count in {true, 0, 2^32-1, random}, Boolean bytes 0..255; markers: all 256 marker bytes x 4 positions (exhaustive); truncation: every cut point of encodings <= 400 bytes, sampled cuts above. Non-trivial = tree with a container, or a non-canonical legal encoding (ECMA count != size, Boolean byte > 1), or an unsupported marker, or truncation of a tree with a container; distinct = distinct tree / marker case",
         assumptions: vec![
             "property name \"\" is outside the decoder's documented domain and is not generated (known finding under C04)",
             "marker 9 (object end) in value position is malformed input the statement does not rule on: not judged",
